@@ -10,18 +10,18 @@ Open Scope N_scope.
 (* accept: inner is called exactly once with the interceptor's metadata (unsanitised) and
    extensions and the original method, uri, version and body; its answer is passed on *)
 Theorem c12_accept_preserves :
-  forall (E B R : Type) (f : interceptor E) (inner : http_request E B -> R) (req : http_request E B) r',
+  forall (E B Err P RB : Type) (f : interceptor E) (inner : http_request E B -> Err + (P * RB)) (req : http_request E B) r',
   f (mkReq (from_headers (rq_headers req)) (rq_ext req) tt) = inl r' ->
   intercepted_call f inner req =
     let req' := mkHttpReq (rq_method req) (rq_uri req) (rq_version req)
                           (into_headers (tr_md r')) (tr_ext r') (rq_body req) in
-    ([req'], Val (Wrapped (inner req'))).
+    ([req'], Val (wrap_inner (inner req'))).
 Proof. exact @accept_preserves. Qed.
 
 (* every header name - reserved ones included - reaches the inner service with exactly the
    interceptor's values *)
 Theorem c12_accept_headers_unsanitised :
-  forall (E B R : Type) (f : interceptor E) (inner : http_request E B -> R) (req : http_request E B) r',
+  forall (E B Err P RB : Type) (f : interceptor E) (inner : http_request E B -> Err + (P * RB)) (req : http_request E B) r',
   f (mkReq (from_headers (rq_headers req)) (rq_ext req) tt) = inl r' ->
   exists req', fst (intercepted_call f inner req) = [req'] /\
     forall k, hm_get_all (rq_headers req') k = hm_get_all (tr_md r') k.
@@ -29,7 +29,7 @@ Proof. exact @accept_headers_unsanitised. Qed.
 
 (* whatever the interceptor did not change arrives unchanged *)
 Theorem c12_accept_untouched :
-  forall (E B R : Type) (f : interceptor E) (inner : http_request E B -> R) (req : http_request E B) r' k,
+  forall (E B Err P RB : Type) (f : interceptor E) (inner : http_request E B -> Err + (P * RB)) (req : http_request E B) r' k,
   f (mkReq (from_headers (rq_headers req)) (rq_ext req) tt) = inl r' ->
   hm_get_all (tr_md r') k = hm_get_all (rq_headers req) k ->
   exists req', fst (intercepted_call f inner req) = [req'] /\
@@ -39,18 +39,18 @@ Theorem c12_accept_untouched :
 Proof. exact @accept_untouched. Qed.
 
 Theorem c12_accept_identity :
-  forall (E B R : Type) (inner : http_request E B -> R) (req : http_request E B),
-  intercepted_call (fun r => inl r) inner req = ([req], Val (Wrapped (inner req))).
+  forall (E B Err P RB : Type) (inner : http_request E B -> Err + (P * RB)) (req : http_request E B),
+  intercepted_call (fun r => inl r) inner req = ([req], Val (wrap_inner (inner req))).
 Proof. exact @accept_identity. Qed.
 
 (* reject: inner is never invoked (empty call list), no panic, HTTP 200 with the headers of
    Status::add_header of precisely that status onto {content-type: application/grpc} *)
 Theorem c12_reject_vetoes :
-  forall (E B R : Type) (f : interceptor E) (inner : http_request E B -> R) (req : http_request E B) st,
+  forall (E B Err P RB : Type) (f : interceptor E) (inner : http_request E B -> Err + (P * RB)) (req : http_request E B) st,
   f (mkReq (from_headers (rq_headers req)) (rq_ext req) tt) = inr st ->
   well_formed st ->
   exists h cv,
-    intercepted_call f inner req = ([], Val (FromStatus HTTP_200 HTTP_11 h)) /\
+    intercepted_call f inner req = ([], Val (inr (HStatus HTTP_200 HTTP_11 h, RbEmpty))) /\
     add_header st ct_only = Some h /\ code_to_hv (st_code st) = Some cv /\
     hm_get_all h hdr_content_type = [val_app_grpc] /\
     hm_get_all h hdr_grpc_status = [cv] /\
@@ -65,19 +65,34 @@ Theorem c12_reject_vetoes :
            end.
 Proof. exact @reject_vetoes. Qed.
 
-(* the caller reading those headers recovers precisely that status *)
+(* the caller reading those headers recovers precisely that status.  Premises: the status is
+   well formed, its message is UTF-8 (always, for a Rust String) and its metadata has no user
+   entry under the unreserved protocol name grpc-status-details-bin.  The recovered metadata is
+   the status metadata minus the six reserved names plus the content-type tonic wrote. *)
 Theorem c12_reject_status_recovered :
-  forall (E B R : Type) (f : interceptor E) (inner : http_request E B -> R) (req : http_request E B) st,
+  forall (E B Err P RB : Type) (f : interceptor E) (inner : http_request E B -> Err + (P * RB)) (req : http_request E B) st,
   f (mkReq (from_headers (rq_headers req)) (rq_ext req) tt) = inr st ->
   well_formed st -> utf8_valid (st_msg st) = true ->
   hm_get_all (st_md st) hdr_grpc_status_details = [] ->
   exists h st',
-    intercepted_call f inner req = ([], Val (FromStatus HTTP_200 HTTP_11 h)) /\
+    intercepted_call f inner req = ([], Val (inr (HStatus HTTP_200 HTTP_11 h, RbEmpty))) /\
     from_header_map h = Some st' /\
     st_code st' = st_code st /\ st_msg st' = st_msg st /\ st_details st' = st_details st /\
     forall k, hm_get_all (st_md st') k =
       if bytes_eqb hdr_content_type k then [val_app_grpc] else hm_get_all (sanitize (st_md st)) k.
 Proof. exact @reject_status_recovered. Qed.
+
+(* the response body of a rejected call is ResponseBody::Empty: polling it yields no frame, it
+   reports end of stream and an exact size of 0; an accepted call's body is the inner one *)
+Theorem c12_reject_body_empty : forall (RB F : Type) (fr : RB -> list F) (en : RB -> bool) (sz : RB -> option N),
+  rb_frames fr (@RbEmpty RB) = [] /\ rb_is_end_stream en (@RbEmpty RB) = true /\
+  rb_size_exact sz (@RbEmpty RB) = Some 0.
+Proof. exact @reject_body_empty. Qed.
+
+Theorem c12_accept_body_wrapped : forall (RB F : Type) (fr : RB -> list F) (en : RB -> bool) (sz : RB -> option N) b,
+  rb_frames fr (RbWrap b) = fr b /\ rb_is_end_stream en (RbWrap b) = en b /\
+  rb_size_exact sz (RbWrap b) = sz b.
+Proof. exact @accept_body_wrapped. Qed.
 
 (* Status -> headers -> Status on top of any header map without status headers *)
 Theorem c12_status_roundtrip_on : forall st m0,
@@ -104,7 +119,7 @@ Example c12_example_accept :
       ([99; 111; 110; 116; 101; 110; 116; 45; 116; 121; 112; 101], [120]) ]
     (Some 7, None) [1; 2; 3] in
   let a := mkAction false [(0, ([120; 45; 97], [57])); (1, ([116; 101], [122]))] (Some (None, Some [116])) None in
-  exists req', intercepted_call (interceptor_of a) (fun _ => 0) ex_req = ([req'], Val (Wrapped 0)) /\
+  exists req', intercepted_call (interceptor_of a) (fun _ => @inr unit _ (0, 1)) ex_req = ([req'], Val (inr (HInner 0, RbWrap 1))) /\
     hm_get_all (rq_headers req') [120; 45; 97] = [[57]] /\
     hm_get_all (rq_headers req') [116; 101] = [[116; 114; 97; 105; 108; 101; 114; 115]; [122]] /\
     hm_get_all (rq_headers req') hdr_content_type = [[120]] /\
